@@ -48,7 +48,19 @@ func (m *balModel) Clone() Model {
 	}
 	return c
 }
-func (m *balModel) Key() []byte { return []byte{byte(m.usedLocks)} }
+func (m *balModel) Key() []byte {
+	// lock metadata is part of the key: the contract's copy is only observable at the next tick
+	ks := make([]string, 0, len(m.locks))
+	for k := range m.locks {
+		ks = append(ks, k)
+	}
+	sort.Strings(ks)
+	s := fmt.Sprint(m.usedLocks, m.epoch)
+	for _, k := range ks {
+		s += fmt.Sprint(k, m.locks[k])
+	}
+	return []byte(s)
+}
 func (m *balModel) get(a string) *big.Int {
 	if v, ok := m.bal[a]; ok {
 		return v
@@ -480,7 +492,7 @@ func (d *BalDriver) Step(x *Exec, n *Node, i int) StepResult {
 		where["amount_sign"] = amt.Sign()
 	}
 	viol := func(class, msg string) StepResult {
-		return StepResult{V: Viol(class, msg, where), Outcome: "VIOLATION"}
+		return StepResult{V: Viol(class, msg, where), Outcome: "violation"}
 	}
 	outcome := "FAULT"
 	if obs.Halt {
